@@ -58,7 +58,7 @@ package v2
 //@     && a.Timeout == (t0 || e0 == 0)
 //@ uf validAlert(*alert.Alert) bool
 //@ func (*API).postAlertsHandler
-//@   props C13
+//@   props C13 C05 C14
 //@   nosafe
 //@   assumes tracer != nil
 //@   after call Tracer).Start assume res0 != nil && res1 != nil
@@ -109,7 +109,7 @@ package v2
 
 // C12: the API refuses silences that end before or at their start, or that already ended, before touching the store.
 //@ func (*API).postSilencesHandler
-//@   props C12
+//@   props C12 C18
 //@   requires tracer != nil
 //@   requires api != nil
 //@   after call Tracer).Start assume res0 != nil && res1 != nil
